@@ -488,7 +488,8 @@ static int ec_edit(char *loc, char *cmd, char *arg, char *txt)
 		else
 			ex_show(msg);
 	}
-	lbuf_saved(xb, path[0] != '\0');
+	if (fd >= 0 || path[0])	/* a reload that cannot read the file keeps the changes */
+		lbuf_saved(xb, path[0] != '\0');
 	bufs[0].mtime = mtime(ex_path());
 	xrow = MAX(0, MIN(xrow, lbuf_len(xb) - 1));
 	xoff = 0;
